@@ -306,6 +306,11 @@ func (m *Model) UpdateMode(mode *traits.ElectricMode, opts ...resource.WriteOpti
 }
 
 func (m *Model) updateMode(mode *traits.ElectricMode, opts ...resource.WriteOption) (*traits.ElectricMode, error) {
+	if mode.Id == "" {
+		// The empty id names no mode; with resource.WithCreateIfAbsent one would be created under it, which neither
+		// CreateMode (it allocates an id) nor AddMode (it refuses) ever does and which ListModes cannot page past.
+		return nil, ErrModeNotFound
+	}
 	// if this update makes the mode normal, check that there isn't another normal mode
 	if mode.Normal && writesField(opts, "normal") {
 		if normal, ok := m.normalMode(); ok && normal.Id != mode.Id {
